@@ -348,6 +348,19 @@ func genC01(o *cw) {
 			}
 		}
 	}
+	// every ordered axis pair x every pair of node tests, explicit syntax, on a rotating hand document
+	for _, a1 := range allAxes {
+		for _, a2 := range allAxes {
+			for _, t1 := range tests(a1) {
+				for _, t2 := range tests(a2) {
+					rot++
+					p := gen.Path{Abs: rot%4 == 0, Steps: []gen.Step{{Axis: a1, Test: t1}, {Axis: a2, Test: t2}}}
+					o.features(p)
+					o.c("selall", hand[6+rot%(len(hand)-6)], "/", "-", gen.Str(p, both[0]), "", "2step-alltests")
+				}
+			}
+		}
+	}
 	// every axis triple with a test rotation
 	for _, a1 := range allAxes {
 		for _, a2 := range allAxes {
